@@ -32,7 +32,7 @@ META = {
                   'model of environ/lookups.py and the generated EnvWizard.__init__ + differential correspondence '
                   'of whole operation traces with the implementation + direct predicates'),
     'design_ref': 'DESIGN.md section 4 C18',
-    'theorems': ['C18_pure', 'C18_invariant', 'C18_reload', 'C18_overlay_value', 'C18_missing_all',
+    'theorems': ['C18_pure', 'C18_deterministic_region', 'C18_invariant', 'C18_reload', 'C18_overlay_value', 'C18_missing_all',
                  'C18_environ_untouched', 'C18_priority_table', 'C18_refuted_prefix_tuple'],
     'tables': ['LetterCase'],
     'level_text': ('Proved in Coq for ALL operation histories (instantiations of arbitrary classes with arbitrary '
